@@ -564,15 +564,15 @@ func (pr *ProtoArray) inSubtree(anchorIndex NodeIndex, lookupIndex NodeIndex) (u
 
 var HeadUnknownErr = errors.New("array has invalid state, head has no index")
 
-type prunedNode struct {
-	canonical bool
-	node      *ProtoNode
-}
-
 // Update the tree with new finalization information (or alternatively another trusted root and slot)
 // The slot may point to a gap slot,
 // in which case the node with the anchor block of the anchor block-root is pruned,
 // and the next nodes, up to (and excl.) the anchorSlot.
+//
+// Every node that is not the anchor or a descendant of it (in the transition graph) is dropped,
+// after it was sent to the sink; ancestors of the anchor are reported as canonical.
+// If the sink fails, only the nodes that were sent successfully are dropped.
+// The remaining nodes are compacted, and the array indices start from 0 again.
 func (pr *ProtoArray) OnPrune(ctx context.Context, anchorRoot Root, anchorSlot Slot) error {
 	anchorRef := NodeRef{Root: anchorRoot, Slot: anchorSlot}
 	anchorIndex, ok := pr.indices[anchorRef]
@@ -584,45 +584,89 @@ func (pr *ProtoArray) OnPrune(ctx context.Context, anchorRoot Root, anchorSlot S
 		// nothing to do
 		return nil
 	}
-	// Get the head, it will help quickly determine if pruned nodes are canonical
-	head, err := pr.FindHead(anchorRoot, anchorSlot)
-	if err != nil {
-		return err
+	n := len(pr.nodes)
+	rel := func(index NodeIndex) (int, bool) {
+		if index == NONE || index < pr.indexOffset || index-pr.indexOffset >= NodeIndex(n) {
+			return 0, false
+		}
+		return int(index - pr.indexOffset), true
 	}
-	headIndex, ok := pr.indices[head]
-	if !ok {
-		return HeadUnknownErr
-	}
-	// Remove the `self.indices` and `self.blockSlots` key/values for all the to-be-deleted nodes.
-	j := 0
-	var pruned []prunedNode
-	for i := pr.indexOffset; i < anchorIndex; i++ {
-		node := &pr.nodes[j]
-		if pr.sink != nil {
-			canonical := node.BestDescendant == headIndex
-			pruned = append(pruned, prunedNode{canonical, node})
+	anchor, _ := rel(anchorIndex)
+	// Nodes are sorted parent-first: a single pass finds the subtree of the anchor.
+	keep := make([]bool, n)
+	keep[anchor] = true
+	for i := anchor + 1; i < n; i++ {
+		if p, ok := rel(pr.nodes[i].TransitionParent); ok {
+			keep[i] = keep[p]
 		}
 	}
-	// Send pruned nodes to the node sink (empty if no sink). Continue until it fails.
+	// Pruned ancestors of the anchor are the canonical ones.
+	canonical := make([]bool, n)
+	for p, ok := rel(pr.nodes[anchor].TransitionParent); ok; p, ok = rel(pr.nodes[p].TransitionParent) {
+		canonical[p] = true
+	}
+	// Send pruned nodes to the node sink (if any). Continue until it fails.
 	// Only prune what we successfully sent to the sink.
-	prunedUpTo := 0
-	for _, p := range pruned {
-		if err = pr.sink.OnPrunedNode(ctx, p.node.Ref, p.canonical); err != nil {
-			break
+	var err error
+	dropped := make([]bool, n)
+	for i := 0; i < n; i++ {
+		if keep[i] {
+			continue
 		}
-		prunedUpTo++
+		if pr.sink != nil {
+			if err = pr.sink.OnPrunedNode(ctx, pr.nodes[i].Ref, canonical[i]); err != nil {
+				break
+			}
+		}
+		dropped[i] = true
 	}
-	// adjust the slot we know for the anchor root, everything before it was pruned.
-	pr.blockSlots[anchorRoot] = anchorSlot
-	for _, p := range pruned[:prunedUpTo] {
-		delete(pr.indices, p.node.Ref)
-		// Remove the block-slots ref
-		delete(pr.blockSlots, p.node.Ref.Root)
-		// TODO: is this slicing bad for GC?
-		pr.nodes = pr.nodes[1:]
-		// update offset
-		pr.indexOffset++
+	// Compact the array, and remap the node indices.
+	remap := make([]NodeIndex, n)
+	next := NodeIndex(0)
+	for i := 0; i < n; i++ {
+		if dropped[i] {
+			remap[i] = NONE
+			delete(pr.indices, pr.nodes[i].Ref)
+		} else {
+			remap[i] = next
+			next++
+		}
 	}
+	translate := func(index NodeIndex) NodeIndex {
+		if i, ok := rel(index); ok {
+			return remap[i]
+		}
+		return NONE
+	}
+	nodes := make([]ProtoNode, 0, next+100)
+	for i := 0; i < n; i++ {
+		if dropped[i] {
+			continue
+		}
+		node := pr.nodes[i]
+		hadForkchoiceParent := node.ForkchoiceParent != NONE
+		node.TransitionParent = translate(node.TransitionParent)
+		node.ForkchoiceParent = translate(node.ForkchoiceParent)
+		if keep[i] && i != anchor && hadForkchoiceParent && node.ForkchoiceParent == NONE {
+			// the forkchoice parent was an earlier node of the anchor block, the anchor takes over.
+			node.ForkchoiceParent = remap[anchor]
+		}
+		node.BestChild = translate(node.BestChild)
+		node.BestDescendant = translate(node.BestDescendant)
+		pr.indices[node.Ref] = remap[i]
+		nodes = append(nodes, node)
+	}
+	pr.nodes = nodes
+	pr.indexOffset = 0
+	// The first known slot of every block root may have changed (or the root is gone).
+	pr.blockSlots = make(map[Root]Slot, len(nodes)+100)
+	for i := range pr.nodes {
+		ref := pr.nodes[i].Ref
+		if slot, ok := pr.blockSlots[ref.Root]; !ok || ref.Slot < slot {
+			pr.blockSlots[ref.Root] = ref.Slot
+		}
+	}
+	pr.updatedConnections = false
 	return err
 }
 
